@@ -1,6 +1,6 @@
 (* Model of emmet/abbreviation/convert.py and emmet/abbreviation/stringify.py:
    token tree -> unrolled abbreviation tree.  Definitions only. *)
-From Emmet Require Import lib.Base model.MarkupTokenizer model.MarkupParser.
+From Emmet Require Import lib.Base model.MarkupTokenizer model.MarkupParser model.MarkupHref.
 
 (* items of a node/attribute value: str, or a Field token with an index *)
 Inductive vtok := VStr (s : str) | VField (index : N) (name : str).
@@ -32,7 +32,7 @@ Inductive wtext := WNone | WStr (s : str) | WList (l : list str).
 Record cenv := mkCenv {
   ce_text : wtext;
   ce_vars : list (str * str);          (* config.variables (merged) *)
-  ce_href : bool }.                    (* options['markup.href'] -- not modelled, see DESIGN §7 *)
+  ce_href : bool }.                    (* bool(options['markup.href']): insert_wrap below *)
 
 (* mutable part of ConvertState; repeaters: head = innermost (Python's [-1]) *)
 Record cst := mkCst {
@@ -249,6 +249,47 @@ Definition insert_text (n : anode) (text : str) : anode :=
       ANode nm (Some v') rp at_ ch sc
   end.
 
+(* insert_href(node, text).  The value written is a Python str, not a list: everything downstream only
+   iterates it (push_tokens, len, [0]), which yields its characters one by one -- [str_value]. *)
+Definition s_href : str := [104; 114; 101; 102]%N.
+Definition s_a : str := [97]%N.
+Definition name_is (o : option str) (s : str) : bool :=
+  match o with Some x => str_eqb x s | None => false end.
+Definition str_value (s : str) : list vtok := map (fun c => VStr [c]) s.
+
+(* the first attribute named href gets the value when its own is None or empty; None: there is no such attribute *)
+Fixpoint set_first_href (href : str) (l : list aattr) : option (list aattr) :=
+  match l with
+  | [] => None
+  | a :: r =>
+      if name_is (aa_name a) s_href then
+        Some (match aa_value a with
+              | None | Some [] =>
+                  mkAAttr (aa_name a) (Some (str_value href)) (aa_vtype a) (aa_boolean a) (aa_implied a) (aa_multiple a)
+              | Some (_ :: _) => a
+              end :: r)
+      else match set_first_href href r with Some r' => Some (a :: r') | None => None end
+  end.
+
+(* node.attributes after insert_href(node, text) *)
+Definition href_attrs (text : str) (at_ : option (list aattr)) : option (list aattr) :=
+  match href_value text with
+  | Some ((_ :: _) as href) =>                                   (* `if href:` *)
+      let fresh := mkAAttr (Some s_href) (Some (str_value href)) VRaw false false false in
+      Some match nonempty at_ with
+           | Some l => match set_first_href href l with Some l' => l' | None => l ++ [fresh] end
+           | None => [fresh]
+           end
+  | _ => at_
+  end.
+Definition insert_href (n : anode) (text : str) : anode :=
+  match n with ANode nm v rp at_ ch sc => ANode nm v rp (href_attrs text at_) ch sc end.
+
+(* what convert() does to the deepest node with the whole wrap text *)
+Definition insert_wrap (env : cenv) (n : anode) (tx : str) : anode :=
+  let n1 := insert_text n tx in
+  if name_is (an_name n1) s_a && ce_href env then insert_href n1 tx else n1.
+
 (* apply f to deepest_node(n): the end of the last-child chain *)
 Fixpoint on_deepest (f : anode -> anode) (n : anode) : anode :=
   match n with
@@ -404,5 +445,5 @@ Definition convert (env : cenv) (max_repeat : option N) (root : list tnode) : re
                   | WStr s => strip s
                   | WNone => []
                   end in
-        Ok (on_last_deepest (fun n => insert_text n tx) children)
+        Ok (on_last_deepest (fun n => insert_wrap env n tx) children)
   end.
